@@ -37,6 +37,38 @@ theorem C10_dead_never_called (U : Universe) (s : St) (o : Obj) (h : s.alive o =
     (run U fuel s ops).alive o = false ∧ callsTo o (run U fuel s ops).log = callsTo o s.log :=
   dead_reach (c := callsTo o s.log) ⟨h, rfl⟩ (reach_run U fuel s ops)
 
+/-- Gone for good: after the program dropped its last reference to a handler (between two
+operations), whatever happens afterwards — any operations, any re-entrant callbacks — the
+dispatcher's tables never mention it again and it is never called: a dispatcher does not keep a
+handler alive, and later dispatches behave as if it had never been added. -/
+theorem C10_gone_for_good (U : Universe) (hU : U.WF) (held hints : List Obj) (fuel : Nat)
+    (ops ops' : List Op) (o : Obj)
+    (hheld : (run U fuel (init held hints) ops).held.contains o = true) :
+    let s' := dropObj (run U fuel (init held hints) ops) o
+    Dict.get? (run U fuel s' ops').handlers o = none ∧
+    (∀ ev x, x ∈ evl (run U fuel s' ops') ev → x.1 ≠ o) ∧
+    callsTo o (run U fuel s' ops').log = callsTo o s'.log := by
+  obtain ⟨hi, hp, _, _, _⟩ := top_state hU held hints fuel ops
+  have hdead := (drop_unregisters hU hi hp o).2.2
+  have hi' : Disp.Inv U (dropObj (run U fuel (init held hints) ops) o) :=
+    inv_prim hU hi (.drop _ o hheld)
+  have hreach := reach_run U fuel (dropObj (run U fuel (init held hints) ops) o) ops'
+  have hinv := inv_reach hU hi' hreach
+  obtain ⟨hd, hc⟩ := dead_reach (c := callsTo o (dropObj (run U fuel (init held hints) ops) o).log)
+    ⟨hdead, rfl⟩ hreach
+  have hnone : Dict.get? (run U fuel (dropObj (run U fuel (init held hints) ops) o) ops').handlers o = none := by
+    cases hg : Dict.get? (run U fuel (dropObj (run U fuel (init held hints) ops) o) ops').handlers o with
+    | none => rfl
+    | some l =>
+      have := hinv.alive o l hg
+      rw [hd] at this; exact absurd this (by simp)
+  refine ⟨hnone, ?_, hc⟩
+  intro ev x hx he
+  obtain ⟨xr, xm⟩ := x
+  simp only at he; subst he
+  have := (hinv.inverse xr ev xm).mp hx
+  simp [hl, hnone] at this
+
 /-- No callback is ever invoked with a missing (`None`) receiver — also when handlers disappear in
 the middle of a dispatch because an earlier callback of the same event dropped them (`dispatch`
 skips dead referents, events.py:113-121). -/
